@@ -1,0 +1,13 @@
+//go:build verif
+
+// Verification hooks (build tag verif) for property C07: the float container's unexported constants. No behaviour.
+package compress
+
+// VerifConsts returns the float container mode tags and thresholds.
+func VerifConsts() map[string]uint64 {
+	return map[string]uint64{
+		"f_none": floatCompressedNull, "f_old_gorilla": floatCompressedOldGorilla, "f_snappy": floatCompressedSnappy,
+		"f_gorilla": floatCompressedGorilla, "f_same": floatCompressedSame, "f_rle": floatCompressedRLE, "f_mlf": floatCompressMLF,
+		"f_threshold": floatCompressThreshold, "f_rle_threshold": floatRLECompressThreshold, "rle_block_limit": RLEBlockLimit,
+	}
+}
